@@ -45,6 +45,7 @@ type Out struct {
 	Real [][]Ev ` + "`json:\"real\"`" + ` // interleaved on one goroutine, per iterator
 	Par  [][]Ev ` + "`json:\"par\"`" + `  // one goroutine per iterator
 	Nat  [][]Ev ` + "`json:\"nat\"`" + `
+	Extra []string ` + "`json:\"extra\"`" + ` // the bystander iterator of another element type, consumed concurrently
 }
 
 func step(it It, r *rt.Rec) (ev Ev) {
@@ -95,10 +96,26 @@ func interleaved(in In, native bool) [][]Ev {
 	return out
 }
 
-func parallel(in In) [][]Ev {
+func parallel(in In) ([][]Ev, []string) {
 	its, recs := mkAll(in, false)
 	out := make([][]Ev, len(its))
 	var wg sync.WaitGroup
+	// a bystander: one more goroutine consumes a generator of ANOTHER element type (another instantiation of
+	// the generic runtime) at the same time; it must produce its solo sequence and must not race either
+	var extra []string
+	wg.Add(1)
+	go func() {
+		defer wg.Done()
+		defer func() {
+			if p := recover(); p != nil {
+				extra = append(extra, "panic: "+rt.PanicStr(p))
+			}
+		}()
+		x := gen.GX(5)
+		for n := 0; n < 10 && x.MoveNext(); n++ {
+			extra = append(extra, x.Current())
+		}
+	}()
 	for j := range its {
 		wg.Add(1)
 		go func(j int) {
@@ -113,18 +130,44 @@ func parallel(in In) [][]Ev {
 		}(j)
 	}
 	wg.Wait()
-	return out
+	return out, extra
 }
 
 func main() {
 	serve(func(in In) (out Out) {
+		// the concurrent phase comes first: in the first job of a process nothing has warmed up
+		// whatever the runtime may cache
+		out.Par, out.Extra = parallel(in)
 		out.Real = interleaved(in, false)
 		out.Nat = interleaved(in, true)
-		out.Par = parallel(in)
 		return
 	})
 }
 `
+
+// the bystander of the concurrent phase: element type string, loop with continue / break, delegation
+const bystanderCo = `
+func gx1(n int) Iter[string] {
+	for i := 0; i < n; i++ {
+		if i%2 == 1 {
+			continue
+		}
+		Yield("x" + string(rune('0'+i)))
+	}
+	return nil
+}
+func GX(n int) Iter[string] {
+	Yield("s")
+	YieldFrom(gx1(n))
+	for {
+		Yield("e")
+		break
+	}
+	return nil
+}
+`
+
+var bystanderExpected = []string{"s", "x0", "x2", "x4", "e"}
 
 // C14: iterators are independent under any interleaving and across goroutines.
 func C14(c *vf.Check) {
@@ -169,7 +212,7 @@ func C14(c *vf.Check) {
 		fmt.Fprintf(&co, "G%d, ", i)
 		fmt.Fprintf(&na, "G%d, ", i)
 	}
-	co.WriteString("}\n" + delegCo)
+	co.WriteString("}\n" + delegCo + bystanderCo)
 	na.WriteString("}\n" + delegNat)
 	for i, g := range gens {
 		co.WriteString(coR.genFunc(fmt.Sprintf("G%d", i), arr(g), "needed") + "\n")
@@ -227,11 +270,16 @@ func C14(c *vf.Check) {
 			continue
 		}
 		var o struct {
-			Real [][]any `json:"real"`
-			Par  [][]any `json:"par"`
-			Nat  [][]any `json:"nat"`
+			Real  [][]any  `json:"real"`
+			Par   [][]any  `json:"par"`
+			Nat   [][]any  `json:"nat"`
+			Extra []string `json:"extra"`
 		}
 		vf.Must(json.Unmarshal(r.Out, &o))
+		if fmt.Sprint(o.Extra) != fmt.Sprint(bystanderExpected) {
+			c.Violation(J{"tup": sc.Tup, "mode": "one goroutine per iterator + bystander of element type string", "expected": bystanderExpected, "actual": o.Extra},
+				fmt.Sprintf("generators %v consumed on separate goroutines: the bystander iterator (element type string) consumed at the same time does not produce its solo sequence\n  solo: %v\n  concurrent: %v", sc.Tup, bystanderExpected, o.Extra))
+		}
 		for j := range sc.Tup {
 			exp := normEvents(arr(sc.Obs[j]), srcKeys...)
 			if j >= len(o.Nat) || normEvents(o.Nat[j], srcKeys...) != exp {
@@ -267,7 +315,7 @@ func C14(c *vf.Check) {
 	c.Cov["traces_validated_against_impl"] = int64(len(cases))
 	c.Cov["evaluations"] = int64(len(cases))
 	c.Cov["distinct_nontrivial"] = int64(len(nontrivial))
-	c.Cov["rule"] = "every tuple of K generators out of 3 (same function several times, different functions, recursive delegation, closure state) x EVERY complete interleaving with M advances each, all iterators created first; each schedule replayed on one goroutine, and each tuple consumed with one goroutine per iterator under the race detector (GORACE halt_on_error); non-trivial = schedule that actually interleaves"
+	c.Cov["rule"] = "every tuple of K generators out of 3 (same function several times, different functions, recursive delegation, closure state) x EVERY complete interleaving with M advances each, all iterators created first; each schedule replayed on one goroutine, and each tuple consumed with one goroutine per iterator under the race detector (GORACE halt_on_error), together with a bystander goroutine consuming a generator of another element type (string), the concurrent phase first in every job; non-trivial = schedule that actually interleaves"
 	c.Cov["exhaustive"] = true
 	c.Cov["bounds"] = J{"K": ks, "M": ms}
 	c.Assumptions = append(c.Assumptions, "data races are decided by Go's race detector during the replay: TLA+ has no Go memory model", "each iterator has its own recorder; shared state would have to live in go-co's runtime or generated code")
